@@ -181,7 +181,7 @@ fn plan_for(cfg: &Cfg) -> Plan {
                     rule: "each run streams N keys (bounded fan-out F and length L; counter prefix + PRNG suffix so that almost every node is new) through a real Set/MapBuilder into a discarding sink with short writes; live requested heap of the thread is compared with B(geometry, F, L) every 1000 inserts. Distinct = distinct (N, kind, geometry, F, L) configurations with distinct measurement digests.".into(),
                     assumptions: vec![
                         "heap = bytes requested from the global allocator by the building thread (allocator overhead excluded)".into(),
-                        "bound B = cells*(48+24*max(4,2F)) + (L+2)*(64+24*max(4,2F)) + 4L + 64KiB, derived from struct sizes on a 64-bit target; deliberately loose by a constant factor".into(),
+                        "bound B = (heap allocated by the constructor, measured) + cells*24*max(4,2F) + (L+2)*(64+24*max(4,2F)) + 4L + 256KiB: every cache cell may grow its transition vector to 2F entries, the unfinished stack holds one node per key byte; for the shipped geometry the number of cells is estimated from the constructor allocation; deliberately loose by a constant factor".into(),
                     ],
                     real: REAL.to_vec(),
                     stubs: STUBS.to_vec(),
